@@ -7,7 +7,7 @@ tier=${1:-quick}; shift
 props=${*:-C01 C02 C03 C04 C05 C06 C07 C08 C09 C10 C11 C12 C13 C14 C15 C16 C17 C18 C19 C20}
 COV=/verif/.build/cov; TOOLS=$(ls -d /root/.rustup/toolchains/nightly-x86_64-unknown-linux-gnu/lib/rustlib/*/bin | head -1)
 export CARGO_NET_OFFLINE=true
-(cd /repo && RUSTFLAGS="--cfg masscanned_verif -C instrument-coverage" cargo +nightly build --offline --target-dir $COV >/dev/null 2>$COV.log) || { tail -20 $COV.log; exit 2; }
+(cd /repo && LLVM_PROFILE_FILE=$COV/build-%p-%m.profraw RUSTFLAGS="--cfg masscanned_verif -C instrument-coverage" cargo +nightly build --offline --target-dir $COV >/dev/null 2>$COV.log) || { tail -20 $COV.log; exit 2; }
 rm -rf $COV/prof; mkdir -p $COV/prof
 for p in $props; do
   LLVM_PROFILE_FILE="$COV/prof/$p-%p-%m.profraw" VERIF_IMPL_BIN=$COV/debug/masscanned VERIF_NO_EVIDENCE=1 /verif/check $p --tier $tier >/dev/null 2>&1
